@@ -31,8 +31,8 @@ def floors(tier):
 
 def plan(tier, seed):
     n = 16 if tier == 'quick' else 64
-    per = 3000 if tier == 'quick' else 40000
-    return [{'trees': per, 'codegen_cases': 40 if tier == 'quick' else 400, 'salt': i} for i in range(n)]
+    per = 3000 if tier == 'quick' else 150000
+    return [{'trees': per, 'codegen_cases': 40 if tier == 'quick' else 1500, 'salt': i} for i in range(n)]
 
 
 # ---- reference rational functions: (num, den) FreePoly pairs -------------------------------------
